@@ -255,7 +255,7 @@ static int runOnce(const Scenario &S, long throwAt, long allocFailAt) {
       if (two && contents(o) != mo) fail("other operand contents " + show(contents(o)) + " expected " + show(mo));
       if (ret >= 0 && ret != pos) fail("returned position " + std::to_string(ret) + " expected " + std::to_string(pos));
       if (v.size() > v.capacity()) fail("size() > capacity()");
-      if (!two && S.op != "shrink_to_fit" && v.capacity() < capBefore) fail("capacity decreased");
+      if (!two && !otherObj && S.op != "shrink_to_fit" && v.capacity() < capBefore) fail("capacity decreased");
       if (!two && !otherObj && m.size() <= capBefore && S.op != "shrink_to_fit" && S.op != "reserve" && (v.data() != dataBefore || A.nalloc + A.nrealloc != allocsBefore)) fail("reallocation although the result fits the capacity");
 #if R_FLAVOUR == 1
       if (!two && !otherObj && !S.get("heap") && (long)m.size() <= R_N && S.op != "reserve" && (A.nalloc + A.nrealloc != allocsBefore || v.capacity() != R_N)) fail("inline SmallVector within N allocated or reports capacity() != N");
